@@ -374,6 +374,114 @@ def cross_case(ctx, h, tmp, fmt):
                     f'after a failed load ({raised}) of b.{fmt} an object of the previously loaded a.{fmt} changed: {diff[0]} -> {diff[1]}', rep)
 
 
+def converter_case(ctx, k, tmp):
+    """documents asked for through a URI that a registered converter rewrites (a plain string such as `models://m.xmi`
+    mapped to a file): asking twice returns the same resource; a document that fails leaves no entry, whichever way the
+    URI is spelled"""
+    from pyecore import ecore as E
+    from pyecore.resources import ResourceSet, URI, global_uri_converter, AbstractURIConverter
+    rng = common.sub_rng(ctx.seed, 'C18', 'converter', k)
+    d = os.path.join(tmp, f'conv{k}')
+    os.makedirs(d, exist_ok=True)
+    pk = E.EPackage('cv', f'http://verif/c18/cv{k}', 'cv')
+    A = E.EClass('A')
+    pk.eClassifiers.append(A)
+    A.eStructuralFeatures.extend([E.EAttribute('name', E.EString), E.EReference('kids', A, upper=-1, containment=True)])
+    root = A(name='r')
+    root.kids.append(A(name='k'))
+    w = ResourceSet()
+    good = os.path.join(d, 'good.xmi')
+    rg = w.create_resource(URI(good)); rg.append(root); rg.save()
+    text = open(good).read()
+    open(os.path.join(d, 'bad.xmi'), 'w').write(text.replace('name="k"', 'name="k" nosuch="1"'))
+
+    class Conv(AbstractURIConverter):
+        @staticmethod
+        def can_handle(uri):
+            return uri.protocol == 'models'
+
+        @staticmethod
+        def convert(uri):
+            return URI(os.path.join(d, uri.plain[len('models://'):]))
+    global_uri_converter.append(Conv)
+    try:
+        rset = ResourceSet()
+        rset.metamodel_registry[pk.nsURI] = pk
+        before = sorted(rset.resources)
+        try:
+            rset.get_resource('models://bad.xmi')
+            ctx.count('converter/bad-loaded-anyway')
+        except Exception:
+            ctx.evaluations += 1
+            if sorted(rset.resources) != before:
+                ctx.violate({'clause': 'trace-after-failure', 'format': 'xmi', 'what': 'resources', 'converter': True},
+                            f'after a failed load through a converted URI the resource set holds {sorted(rset.resources)}', {'case': k, 'kind': 'converter'})
+                return
+        spell = ['models://good.xmi', 'models://good.xmi', good, URI(good)]
+        rng.shuffle(spell)
+        got = []
+        for sp_ in spell:
+            got.append(rset.get_resource(sp_))
+        ctx.evaluations += 1
+        ctx.count('converter/asked-again')
+        ctx.nontriv(('converter', k))
+        if any(g is not got[0] for g in got) or len({id(r) for r in rset.resources.values()}) != 1:
+            ctx.violate({'clause': 'not-idempotent', 'format': 'xmi', 'converter': True},
+                        f'the same document asked for as {[str(x) if not isinstance(x, str) else x for x in spell]} (a converter maps models:// to its directory): '
+                        f'{len({id(g) for g in got})} different resources returned, {len({id(r) for r in rset.resources.values()})} registered',
+                        {'case': k, 'kind': 'converter'})
+    finally:
+        global_uri_converter.remove(Conv)
+
+
+def ecore_opposite_case(ctx, k, tmp):
+    """a metamodel file that fails to load after it has named, as the eOpposite of one of its references, a reference of an
+    already loaded metamodel: the loaded one is left as it was (recorded finding F-C18-2: `eOpposite` is a Python property
+    that sets the other end the moment it is assigned)"""
+    from pyecore import ecore as E
+    from pyecore.resources import ResourceSet, URI
+    rng = common.sub_rng(ctx.seed, 'C18', 'ecore-opposite', k)
+    d = os.path.join(tmp, f'eo{k}')
+    os.makedirs(d, exist_ok=True)
+    p = E.EPackage('pa', nsURI=f'http://verif/c18/pa{k}', nsPrefix='pa')
+    A, B = E.EClass('A'), E.EClass('B')
+    A.eStructuralFeatures.append(E.EReference('toB', B, upper=rng.choice([1, -1])))
+    B.eStructuralFeatures.append(E.EReference('toA', A))
+    p.eClassifiers.extend([A, B])
+    r = ResourceSet().create_resource(URI(os.path.join(d, 'a.ecore')))
+    r.append(p)
+    r.save()
+    broken = rng.choice(['eOpposite="#//C/nothing"', 'eType="#//Nowhere"', 'bogus="1"'])
+    first = rng.random() < .5
+    good = '<eStructuralFeatures xsi:type="ecore:EReference" name="r1" eType="#//C" eOpposite="a.ecore#//A/toB"/>'
+    bad = f'<eStructuralFeatures xsi:type="ecore:EReference" name="r2" eType="#//C" {broken}/>'
+    open(os.path.join(d, 'b.ecore'), 'w').write(
+        '<?xml version="1.0"?>\n<ecore:EPackage xmlns:xmi="http://www.omg.org/XMI" xmlns:xsi="http://www.w3.org/2001/XMLSchema-instance"\n'
+        f' xmlns:ecore="http://www.eclipse.org/emf/2002/Ecore" xmi:version="2.0" name="pb" nsURI="http://verif/c18/pb{k}" nsPrefix="pb">\n'
+        '  <eClassifiers xsi:type="ecore:EClass" name="C">\n    ' + (good + '\n    ' + bad if first else bad + '\n    ' + good) +
+        '\n  </eClassifiers>\n</ecore:EPackage>\n')
+    rset = ResourceSet()
+    ra = rset.get_resource(URI(os.path.join(d, 'a.ecore')))
+    toB = ra.contents[0].getEClassifier('A').findEStructuralFeature('toB')
+    before = (toB.eOpposite, sorted(rset.resources), len(ra.contents[0].eClassifiers))
+    try:
+        rset.get_resource(URI(os.path.join(d, 'b.ecore')))
+        ctx.count('ecore-opposite/loaded-anyway')
+        return
+    except Exception as e:
+        raised = type(e).__name__
+    ctx.evaluations += 1
+    ctx.count('ecore-opposite/failed')
+    ctx.nontriv(('ecore-opposite', k))
+    after = (toB.eOpposite, sorted(rset.resources), len(ra.contents[0].eClassifiers))
+    if after != before:
+        what = 'A.toB.eOpposite now names a reference of the discarded document' if after[0] is not before[0] else 'the resource set changed'
+        ctx.violate({'clause': 'other-resource-changed', 'format': 'ecore', 'trigger': 'eopposite-href-into-loaded-metamodel'
+                     if after[0] is not before[0] else 'none'},
+                    f'after a failed load ({raised}) of a metamodel that names a reference of a loaded metamodel as an eOpposite: {what}',
+                    {'case': k, 'format': 'ecore', 'kind': 'ecore-opposite'})
+
+
 def schema_case(ctx, h, tmp, ncorr):
     """the metamodel is not registered: the document names it through xsi:schemaLocation (an .ecore file next to it).  A
     corrupted document of this kind must leave the registries as they were, too"""
@@ -482,6 +590,9 @@ def run(ctx):
             cross_case(ctx, h, tmp, 'xmi' if h % 2 == 0 else 'json')
             cross_case(ctx, h, tmp, 'json' if h % 2 == 0 else 'xmi')
             schema_case(ctx, h, tmp, max(10, ncorr // 4))
+            if h < 12:
+                ecore_opposite_case(ctx, h, tmp)
+                converter_case(ctx, h, tmp)
     finally:
         shutil.rmtree(tmp, ignore_errors=True)
     ctx.assumptions += ['termination of lxml / json parsing itself is trusted (watchdog only)',
